@@ -211,4 +211,20 @@ theorem dispatch_sd (sha1 : Bytes → Bytes) (disk : Bytes → Option Bytes) (s 
       obtain ⟨hk, hq⟩ := consultRequest_sd disk s idx rep _ _ _ hcr
       exact ⟨hk, nosd_append hq (serveRequest_sd _ idx b l)⟩
 
+theorem cmO_npr (s : HState) (i : Bool) (rd : ReqData) : cmO (newPieceRequest s i rd).2 = [] := by
+  unfold newPieceRequest sendRequest
+  simp only
+  cases i <;> repeat' (first | split | rfl)
+
+theorem cmO_pfr (s : HState) (rep : Rep) (s' : HState) (o : List HOut) (b : Bool)
+    (h : pieceFinishReply s rep = some (s', o, b)) : cmO o = [] := by
+  unfold pieceFinishReply at h
+  split at h
+  · simp only [Option.some.injEq, Prod.mk.injEq] at h; rw [← h.2.1]; exact cmO_npr s false _
+  · cases h; rfl
+  · cases h; rfl
+  · cases h; rfl
+  · cases h
+
+
 end Rdest.Swarm
